@@ -785,9 +785,8 @@ class Gen(object):
                     continue
                 if self._room(m, rp, rc, excluding) > 0:
                     continue
-                n = inv['min_unit']
-                while n % inv['step_size']:
-                    n += 1
+                n = -(-inv['min_unit'] // inv['step_size']) * \
+                    inv['step_size']
                 if n <= inv['max_unit']:
                     cands.append((rp, rc, n))
             if not cands:
@@ -826,8 +825,7 @@ class Gen(object):
             n = int(cap - used) + 1
             # respect the unit constraints so capacity is the only defect
             n = max(n, inv['min_unit'])
-            while n % inv['step_size']:
-                n += 1
+            n = -(-n // inv['step_size']) * inv['step_size']
             if n > inv['max_unit'] or n < 1:
                 return False
             alloc[rp][rc] = n
@@ -895,13 +893,15 @@ class Gen(object):
                 left = n - i - 1
                 inv_ = m.inventories[same_pair]
                 amt = None
-                for cand_n in range(1, max(1, room - left) + 1):
-                    if cand_n >= inv_['min_unit'] and \
-                            cand_n % inv_['step_size'] == 0 and \
-                            cand_n <= inv_['max_unit']:
-                        amt = cand_n
-                        if self.chance(0.5):
-                            break
+                st_ = inv_['step_size']
+                first = -(-max(inv_['min_unit'], 1) // st_) * st_
+                top = min(max(1, room - left), inv_['max_unit'])
+                # (totals go up to 2**31 - 1: look at a few multiples only)
+                for cand_n in range(first, min(top, first + 12 * st_) + 1,
+                                    st_):
+                    amt = cand_n
+                    if self.chance(0.5):
+                        break
                 if amt is None or room < amt:
                     alloc = {}
                     clear = True
@@ -936,8 +936,7 @@ class Gen(object):
                         cap = ((inv['total'] - inv['reserved']) *
                                inv['allocation_ratio'])
                         nn = max(int(cap - used) + 1, inv['min_unit'])
-                        while nn % inv['step_size']:
-                            nn += 1
+                        nn = -(-nn // inv['step_size']) * inv['step_size']
                         if nn > inv['max_unit']:
                             d = None
                         else:
